@@ -1211,6 +1211,28 @@ def check_run(rr, ans):
     return None
 
 
+def check_chain(rr):
+    """The iterations of a run hang together: the swarm handed to iteration it+1 is the swarm that iteration it left
+    (positions, personal bests), and its leader archive is the one update_global_best left.  With this, the phase-by-phase
+    replays of the single iterations cover the whole run, whatever order the code keeps its lists in."""
+    cfg = rr["cfg"]
+    head = "%s %s: " % (cfg["algo"], cfg)
+    prev = rr["init"]
+    for it, rec in enumerate(rr["recs"]):
+        left = prev["ev"].get("update_global_best:out")
+        if left is not None:
+            a = sorted((tuple(s["x"]), tuple(s["bv"] or ())) for s in left)
+            b = sorted((tuple(s["x"]), tuple(s["bv"] or ())) for s in rec["parents"])
+            if a != b:
+                return ("run-chain", head + "iteration %d starts from a swarm that is not the swarm the previous generation left "
+                        "(positions / personal bests %r, left behind: %r)" % (it, b[:4], a[:4]))
+        la = prev.get("leaders_after")
+        if la is not None and leader_keys(la) != leader_keys(rec["leaders"]):
+            return ("run-chain", head + "iteration %d starts with a leader archive that is not the one update_global_best left" % it)
+        prev = rec
+    return None
+
+
 def check_init_pbest(rr):
     """init_pbest: every initial particle's personal best is its own evaluated position (generation 0 of the model)."""
     rec = rr["init"]
@@ -1301,7 +1323,7 @@ def check_swarm_runs(ctx, rrs):
             if len(rec["leaders"]) + len(ev) > cfg["N"]:
                 ctx.count("swarm_leader_truncations")
         else:
-            res = check_init_pbest(rr)
+            res = check_init_pbest(rr) or check_chain(rr)
             if res is not None:
                 return res + (cfg,)
             if rr.get("skip_run"):
@@ -1311,7 +1333,12 @@ def check_swarm_runs(ctx, rrs):
                 ctx.count("swarm_runs_crowding_near_tie_at_the_leader_cut")
                 continue
             if res is not None:
-                return res + (cfg,)
+                # Every iteration was replayed phase by phase from its recorded swarm and leaders, and the iterations hang
+                # together (check_chain).  The whole-run replay additionally follows the model's own list orders and
+                # tie-breaks (order of the swarm after update_global_best, which of equally crowded leaders is cut): an
+                # implementation that breaks such ties differently makes it follow other particles.  Not a property clause.
+                ctx.count("swarm_runs_whole_run_replay_diverged_" + res[0])
+                continue
             faults = sum(1 for c in rr["p"].calls if c[2] != "o")
             ctx.case(("swarm-run", cfg["algo"], cfg["seed"], cfg["N"], cfg["G"]), nontrivial=(cfg["G"] >= 2 or faults > 0),
                      sample={"replayed_swarm_run": {k: v for k, v in cfg.items()}, "objective_calls": len(rr["p"].calls),
